@@ -1015,7 +1015,10 @@ def _judge(tr, cfg, req, resp, cut_by_fault, relaxed, violate, probe) -> int:
     if status in (200, 206):
         dir_cands = [p for p in cands if _kind(p) == "dir"]
         file_cands = [p for p in cands if _kind(p) == "file"]
-        looks_listing = ctype.startswith("text/html") and body.startswith(b"<html>\n<head>\n<title>Index of")
+        _prologue = b"<html>\n<head>\n<title>Index of"
+        looks_listing = ctype.startswith("text/html") and (
+            body.startswith(_prologue) or (not complete and 0 < len(body) < len(_prologue) and dir_cands
+                                           and _prologue.startswith(bytes(body))))
         if looks_listing or (method == "HEAD" and status == 200 and dir_cands and not file_cands):
             interesting = 1
             probe("listing")
